@@ -79,6 +79,15 @@ def run(ctx):
                  f"session uniqueness is {[sorted(u) for u in ses_t.unique]}: create_or_load relies on UNIQUE(targetCompId, senderCompId) to load instead of create", loc(views["__init__"].fn))
     ctx.instance("C13.key-declared", "session.sessionId", ses_t.primary_key == frozenset({"sessionId"}), "sessionId is no longer the session primary key", loc(views["__init__"].fn))
 
+    # key columns compare byte-wise: no collation / affinity that identifies different CompIDs or numbers
+    for tname, t in (("message", msg_t), ("session", ses_t)):
+        for col, words in t.coldefs.items():
+            up = [w.upper() for w in words]
+            bad = "COLLATE" in up and not (up.index("COLLATE") + 1 < len(up) and up[up.index("COLLATE") + 1] == "BINARY")
+            ctx.instance("C13.key-declared", f"{tname}.{col}[binary comparison]", not bad,
+                         f"column {tname}.{col} is declared `{' '.join(words)}`: a non-binary collation makes keys that differ (e.g. CompIDs differing by letter case) "
+                         "compare equal, so two sessions share one row, their messages and counters", loc(views["__init__"].fn))
+
     # ---- rules 2, 3 over every static statement
     for name, v in views.items():
         for s in v.sites:
@@ -258,6 +267,40 @@ def run(ctx):
     ok = len(calls) == 1 and [unparse(a) for a in calls[0].args] == [pp[1], pp[2], pp[3], pp[3]]
     ctx.instance("C13.range-semantics", "recover_msg.delegates", ok,
                  f"recover_msg no longer delegates with start=end=seq_no: {short(calls[0]) if calls else 'no call'}", loc(one))
+
+    # the bounds reach the query as given (no rewriting of 0 / None into something else) ...
+    params = [a.arg for a in rv.fn.args.args][1:]
+    rebinds = [n for n in walk_no_nested(rv.fn) if isinstance(n, (ast.Assign, ast.AugAssign, ast.AnnAssign)) and any(
+        isinstance(t, ast.Name) and t.id in params for t in (n.targets if isinstance(n, ast.Assign) else [n.target]))]
+    plain = all(isinstance(a, ast.Name) and a.id in params or isinstance(a, ast.Attribute) for a in (sel[0].args or []))
+    ctx.instance("C13.range-semantics", "recover_messages.bounds-as-given", not rebinds and plain,
+                 f"recover_messages rewrites its arguments before the query (`{short(rebinds[0]) if rebinds else 'computed bound'}`): an empty / inverted range "
+                 "such as [5, 0] no longer returns nothing", loc(rebinds[0]) if rebinds else loc(sel[0].call))
+    # ... and the bytes come back as stored: no transcoding on the way in or out
+    pv = views.get("persist_msg")
+    ins = [x for x in pv.sites if x.stmt.kind == "INSERT" and x.stmt.table == "message"]
+    msg_param = [a.arg for a in pv.fn.args.args][1]
+    if len(ins) != 1 or not ins[0].args:
+        raise AnalysisError("persist_msg: the INSERT into message was not found")
+    stored = ins[0].args[-1]
+    ctx.instance("C13.placeholder-binding", "persist_msg[message stored as given]", isinstance(stored, ast.Name) and stored.id == msg_param,
+                 f"the message column receives `{short(stored)}`, not the bytes that were handed in: what is read back is a transcoded copy", loc(ins[0].call))
+    for mname in ("recover_messages", "get_all_msgs"):
+        mv = views.get(mname)
+        if mv is None:
+            continue
+        row_loops = [lp for lp in walk_no_nested(mv.fn) if isinstance(lp, ast.For) and ("cursor" in unparse(lp.iter) or "fetch" in unparse(lp.iter))]
+        for lp in row_loops:
+            rowvars = {x.id for x in ast.walk(lp.target) if isinstance(x, ast.Name)}
+            for c in walk_no_nested(lp):
+                if not (isinstance(c, ast.Call) and isinstance(c.func, ast.Attribute) and c.func.attr in ("append",) and c.args):
+                    continue
+                if not any(isinstance(x, ast.Name) and x.id in rowvars for x in ast.walk(c.args[0])):
+                    continue
+                calls_in = [x for x in ast.walk(c.args[0]) if isinstance(x, ast.Call)]
+                ctx.instance("C13.placeholder-binding", f"{mname}[row returned as stored]", not calls_in,
+                                 f"`{short(c)}` transforms the stored value on the way out (`{short(calls_in[0]) if calls_in else ''}`): the message is not returned unchanged "
+                             "(e.g. bytes >= 0x80 re-encoded)", loc(c))
 
     # ---- rule 6: truncation pairing
     sv = views.get("set_seq_num")
